@@ -16,7 +16,8 @@
 From Coq Require Import List NArith ZArith Bool Sorted.
 From ApiFu Require Import Base.Sexp TimeConn.TimeModel TimeConn.TimeSpec TimeConn.TimeProofs
   TimeConn.TimeErrModel TimeConn.TimeErrProofs TimeConn.TimeCursorCodec TimeConn.TimeCursorCodecProofs
-  TimeConn.GoTimeModel TimeConn.GoTimeProofs.
+  TimeConn.GoTimeModel TimeConn.GoTimeProofs TimeConn.TimeCostProofs.
+From ApiFu Require Cost.CostModel.
 Import ListNotations.
 Open Scope Z_scope.
 
@@ -326,6 +327,25 @@ Theorem C16_cursor_order_refuted_outside_int64 :
   inst (cursor_time (new_cursor t_2300 [])) <> inst t_2300.
 Proof. exact cursor_order_refuted_outside_int64. Qed.
 
+(** ** Stage B: cost (composition with C14's model of the connection cost functions)
+
+    A time-based connection is built with [Connection], so its cost function is
+    [defaultConnectionCost] and the cost of its [edges] field reads the edge count stored in the
+    context (Cost/CostModel.v: [default_connection_cost], [edges_cost], [connection_edge_count]).
+    The resolver cost is 1, and the multiplier announced for the edges is never exceeded by the
+    page the connection returns — which has exactly the length C14's model of the resolver's edge
+    count predicts for the number of matching edges. *)
+Theorem C16_time_cost_bounds_page : forall U (ctx : CostModel.kctx U) E g ps want_info a,
+  honours g E -> NoDup E -> representable E -> args_ok a = true ->
+  exists info m,
+    fst (conn current g ps want_info a) = OPage (TimeRef E a) info
+    /\ CostModel.fc_r (CostModel.default_connection_cost (argval_of (a_first a)) (argval_of (a_last a)) ctx) = 1
+    /\ edges_multiplier a ctx = Some m
+    /\ Z.of_nat (length (TimeRef E a)) <= m
+    /\ CostModel.connection_edge_count (argval_of (a_first a)) (argval_of (a_last a)) (Z.of_nat (length (matching E a)))
+       = Some (Z.of_nat (length (TimeRef E a))).
+Proof. exact time_cost_bounds_page. Qed.
+
 Print Assumptions C16_cursor_order_strict_total.
 Print Assumptions C16_reference_characterised.
 Print Assumptions C16_sorted_list_unique.
@@ -358,3 +378,4 @@ Print Assumptions C16_time_comparisons_are_instants.
 Print Assumptions C16_range_queries_at_time_level_exact.
 Print Assumptions C16_cursor_denotes_edge_time_iff_int64.
 Print Assumptions C16_cursor_order_refuted_outside_int64.
+Print Assumptions C16_time_cost_bounds_page.
